@@ -209,6 +209,18 @@ def _def_use(tier, seed):
     for path in sorted(glob.glob(REPO + "/tests/integration/*.yaml")):
         fam.append((path.rsplit("/", 1)[1], open(path).read()))
     fam += _conv2d_family(tier, seed)
+    # chains of discordant accesses: a tensor that owns one rank of each of two (three) separate flattenings without being
+    # flattened itself is read with getPayload twice (three times) in a row, each access inside the loop that binds its coordinate
+    for decl, expr, flat, orders in (
+            ("A: [J, K]\n    T: [M, P]\n    B: [K, M, N]\n    Z: [M, N]", "Z[m, n] = A[j, k] * T[m, p] * B[k, m, n]",
+             ["(J, K)", "(M, P)"], (["JK", "MP", "N"], ["MP", "JK", "N"], ["JK", "N", "MP"])),
+            ("A: [J, K]\n    T: [M, P]\n    U: [N, Q]\n    B: [K, M, N]\n    Z: [M, N]",
+             "Z[m, n] = A[j, k] * T[m, p] * U[n, q] * B[k, m, n]", ["(J, K)", "(M, P)", "(N, Q)"],
+             (["JK", "MP", "NQ"], ["NQ", "JK", "MP"]))):
+        for o in orders:
+            y = ("einsum:\n  declaration:\n    %s\n  expressions:\n    - %s\nmapping:\n  partitioning:\n    Z:\n%s"
+                 "  loop-order:\n    Z: [%s]\n" % (decl, expr, "".join("      %s: [flatten()]\n" % f for f in flat), ", ".join(o)))
+            fam.append(("discord chain " + " ".join(o), y))
     n, fails = 0, []
     # metrics mode as well (header / footer nodes of eager bindings are placed by the same machinery): the repository's
     # accelerator specifications and their single-point binding-style variants
@@ -244,7 +256,7 @@ def bounded(uni, tier, seed):
             "rule": "every Einsum of every tests/integration/*.yaml: real FlowGraph with and without hoisting - order "
                     "topological w.r.t. the real graph, loop brackets nested in loop order, same node multiset; the emitted "
                     "statements of the placement family (props/hoist_family.py, every level-respecting loop order) "
-                    "of a 2-D convolution with both projected ranks partitioned (every level-respecting loop order; quick: 46 of 180), "
+                    "of chains of discordant accesses (one tensor across two / three separate flattenings), of a 2-D convolution with both projected ranks partitioned (every level-respecting loop order; quick: 46 of 180), "
                     "of the integration specs and (metrics mode) of the repository's accelerator specifications with their "
                     "binding-style variants read only names bound earlier on every path; in the real graphs of the 2-D convolution family the "
                     "eager-input node hangs below the fiber of the rank an independent reading of the Einsum text says it projects; "
